@@ -25,6 +25,8 @@ type Bearer struct {
 	SignAs    string                 `json:"sign_as,omitempty"`    // really sign with this HMAC ("" = the alg named)
 	Secret    string                 `json:"secret,omitempty"`     // right | wrong | empty
 	Trunc     int                    `json:"trunc,omitempty"`      // characters cut from the end of the signature
+	Header    map[string]interface{} `json:"header,omitempty"`     // further header members besides alg / typ
+	HeaderDup string                 `json:"header_dup,omitempty"` // raw JSON members placed first in the header (duplicates that lose)
 	SignKey   *string                `json:"sign_key,omitempty"`   // sign with exactly this key instead (configuration dimension of the secret)
 	KeyExact  bool                   `json:"key_exact,omitempty"`  // ... which is, as a string, the configured secret
 	Claims    map[string]interface{} `json:"claims,omitempty"`     // the JSON claims object
@@ -72,7 +74,17 @@ func (b Bearer) Build(secret string) (string, bool) {
 	if b.Alg != nil {
 		hdr["alg"] = b.Alg
 	}
+	for k, v := range b.Header { // further JOSE header members (kid, jku, x5c, cty, crit, unknown ones; "typ" may be replaced)
+		if k == "typ" && v == nil {
+			delete(hdr, "typ")
+			continue
+		}
+		hdr[k] = v
+	}
 	hj, _ := json.Marshal(hdr)
+	if b.HeaderDup != "" { // members written BEFORE the others: a duplicate key there loses to the later one in Go's decoder
+		hj = append([]byte("{"+b.HeaderDup+","), hj[1:]...)
+	}
 	cj, _ := json.Marshal(b.Claims)
 	seg1, seg2 := b64(hj), b64(cj)
 	switch b.HeaderSeg {
